@@ -174,3 +174,99 @@ contract('main', float_mode='fp64', heap=list(FIELDS), class_module={'Parser': '
                        + ["length == AR.length", "width == AR.width"]},
          ghost_args={}, alias_for_asserts={'AR': 'parsed_args'},
          props=['C15', 'C17', 'C11'])
+
+# ------------------------------------------------------------------ the nine transition builders (C08, C11): positional contracts
+# Each builder returns one transition list per tile, tile (a, b) at position a*width + b. Cell_<builder>(..., a, b) is what the
+# Roborta rules of the property statement prescribe for that tile (labels, probabilities, targets, order).
+NS = LIST(TRANS)
+TLT = LIST(NS)
+G, Y, D, L_, R_ = (StringVal(x) for x in ("Green", "Yellow", "Down", "Left", "Right"))
+
+
+def T_(lab=None, prob=None, tgt=None):
+    return trans_mk(lab=lab, prob=prob, tgt=tgt)
+
+
+def mv(moves, a, b):
+    return L_arr(L_arr(moves, LLI)[a], LI)[b]
+
+
+def lits(*xs):
+    return L_lit(NS, list(xs))
+
+
+def left_of(b, w):      # wrap-around within the row
+    return If(b == 0, w - 1, b - 1)
+
+
+def right_of(b, w):
+    return If(b == w - 1, IntVal(0), b + 1)
+
+
+BUILDERS = {}
+
+
+def builder(name, params, cell, extra_req=(), locals_=None):
+    """params: ordered [(name, T)] after (length, width); cell(length, width, *params, a, b) -> z3 list term"""
+    argts = [INT, INT] + [t for _, t in params] + [INT, INT]
+    f = spec('Cell_' + name, argts, NS)
+    SPEC['Cell_' + name]['unfold'] = lambda *args: f(*args) == cell(*args)
+    pn = ['length', 'width'] + [p for p, _ in params]
+    call = lambda a, b: f"Cell_{name}({', '.join(pn)}, {a}, {b})"
+    BUILDERS[name] = (f, pn)
+    shape = ["length >= 1", "width >= 1"] + list(extra_req)
+    contract(name, params=dict([('length', INT), ('width', INT)] + list(params)), result=TLT,
+             locals=dict(dict(transition_list=TLT, transition=NS, i=INT, j=INT), **(locals_ or {})),
+             requires=shape, modifies={},
+             ensures=["len(result) == length * width", f"forall(a, 0, length, forall(b, 0, width, result[a * width + b] == {call('a', 'b')}))"],
+             loops={0: dict(inv=["len(transition_list) == _i * width",
+                                 f"forall(a, 0, _i, forall(b, 0, width, transition_list[a * width + b] == {call('a', 'b')}))"]),
+                    1: dict(inv=["len(transition_list) == i * width + _i1", "i == _i", "0 <= i and i < length",
+                                 f"forall(a, 0, length, forall(b, 0, width, implies(a < i or (a == i and b < _i1), transition_list[a * width + b] == {call('a', 'b')})))"])},
+             props=['C08', 'C11'])
+
+
+MOVES_OK = ["len(moves) == length", "forall(a, 0, length, len(moves[a]) == width)", "forall(a, 0, length, forall(b, 0, width, 0 <= moves[a][b] and moves[a][b] <= 3))"]
+LOOSE_OK = ["len(loose_tiles) == length", "forall(a, 0, length, len(loose_tiles[a]) == width)"]
+# the light: Green always (robot must move down); Yellow unless the tile is down-only
+builder('player_two_transitions', [('moves', LLI), ('offset_r', INT), ('offset_y', INT)],
+        lambda l, w, moves, o_r, o_y, a, b: If(mv(moves, a, b) != 3, lits(T_(lab=G, tgt=o_r + a * w + b), T_(lab=Y, tgt=o_y + a * w + b)), lits(T_(lab=G, tgt=o_r + a * w + b))),
+        extra_req=MOVES_OK)
+# robot told to go down: game A lands on the tile below (wins from the last row); B, C go to the "try down" state of the tile
+OI = OPT(INT)
+builder('player_one_down_transitions', [('offset', INT), ('winning_state', OI)],
+        lambda l, w, off, win, a, b: If(Or(Ty.S(OI).isnone(win), Ty.S(OI).val(win) == 0), lits(T_(lab=D, tgt=off + a * w + b)),
+                                        If(a < l - 1, lits(T_(lab=D, tgt=off + a * w + b + w)), lits(T_(lab=D, tgt=Ty.S(OI).val(win))))))
+C['roberta_generator.player_one_down_transitions']['defaults'] = {'winning_state': 'None'}
+# robot told to go left or right, as the arrows allow; game A (offset_l == offset_r) lands directly, wrapping within the row;
+# a down-only tile gets a placeholder the light never offers
+def _lr(l, w, moves, o_l, o_r, a, b):
+    Lt = T_(lab=L_, tgt=If(o_l != o_r, o_l + a * w + b, o_l + a * w + left_of(b, w)))
+    Rt = T_(lab=R_, tgt=If(o_l != o_r, o_r + a * w + b, o_r + a * w + right_of(b, w)))
+    m = mv(moves, a, b)
+    return If(m == 0, lits(Lt), If(m == 1, lits(Lt, Rt), If(m == 2, lits(Rt), lits(T_(lab=StringVal("Etha"), tgt=IntVal(0))))))
+
+
+builder('player_one_left_right_transitions', [('moves', LLI), ('offset_l', INT), ('offset_r', INT)], _lr, extra_req=MOVES_OK)
+# landing on a tile: a loose tile breaks with the tile-break probability (robot lost), otherwise the light's turn on that tile
+builder('prob_tile_break_transitions', [('prob_tile_break', REAL), ('loose_tiles', LLI), ('offset', INT), ('loosing_state', INT)],
+        lambda l, w, p, loose, off, lose, a, b: If(mv(loose, a, b) == 1, lits(T_(prob=p, tgt=lose), T_(prob=1 - p, tgt=off + a * w + b)), lits(T_(prob=RealVal(1), tgt=off + a * w + b))),
+        extra_req=LOOSE_OK)
+# games B, C: the robot fails with its probability and stays on its tile (lands there again); otherwise it moves
+builder('prob_robot_down_break_transitions', [('prob_robot_break', REAL), ('offset', INT), ('winning_state', INT)],
+        lambda l, w, p, off, win, a, b: lits(T_(prob=p, tgt=off + a * w + b), T_(prob=1 - p, tgt=If(a < l - 1, off + a * w + b + w, win))))
+builder('prob_robot_left_break_transitions', [('prob_robot_break', REAL), ('offset', INT)],
+        lambda l, w, p, off, a, b: lits(T_(prob=p, tgt=off + a * w + b), T_(prob=1 - p, tgt=off + a * w + left_of(b, w))))
+builder('prob_robot_right_break_transitions', [('prob_robot_break', REAL), ('offset', INT)],
+        lambda l, w, p, off, a, b: lits(T_(prob=p, tgt=off + a * w + b), T_(prob=1 - p, tgt=off + a * w + right_of(b, w))))
+# game C, light failed: the robot chooses freely among down and the tile's arrows
+def _dlr(l, w, moves, o_d, o_l, o_r, a, b):
+    Dn, Lt, Rt = T_(lab=D, tgt=o_d + a * w + b), T_(lab=L_, tgt=o_l + a * w + b), T_(lab=R_, tgt=o_r + a * w + b)
+    m = mv(moves, a, b)
+    return If(m == 0, lits(Dn, Lt), If(m == 1, lits(Dn, Lt, Rt), If(m == 2, lits(Dn, Rt), lits(Dn))))
+
+
+builder('player_one_down_left_right_transitions', [('moves', LLI), ('offset_d', INT), ('offset_l', INT), ('offset_r', INT)], _dlr, extra_req=MOVES_OK)
+# game C: the light fails with its probability (free choice), otherwise the robot must obey
+builder('prob_light_break_transitions', [('prob_light_break', REAL), ('offset_ok', INT), ('offset_break', INT)],
+        lambda l, w, p, ok, brk, a, b: lits(T_(prob=p, tgt=brk + a * w + b), T_(prob=1 - p, tgt=ok + a * w + b)))
